@@ -93,6 +93,15 @@ func runWithdraw(ctx *action.Context, signedTx action.RawTx) (bool, action.Respo
 		}
 	}
 
+	// the amount must be valid and non negative: a negative one would inflate the
+	// funder's escrow and debit the beneficiary
+	if !withdrawProposal.WithdrawValue.IsValid(ctx.Currencies) {
+		return false, action.Response{
+			Events: action.GetEvent(withdrawProposal.Tags(), "withdraw_proposal_invalid_amount"),
+			Log:    action.ErrInvalidAmount.Marshal(),
+		}
+	}
+
 	// 1. Check if Proposal already exists, if so, check the withdraw requirement:
 	//    a. if the proposal outcome is cancelled or insufficient funds
 	//    or
